@@ -417,3 +417,27 @@ def roles(prog, ev):
 def rk(prog, ev, path):
     """role label of a function if it has one, else the path itself"""
     return roles(prog, ev).get(path, path)
+
+
+# ------------------------------------------------------------------------------------------------ AST text slots
+def slot_verbatim(ctx, rep, rid, labels, consequence):
+    """The text stored in the given AST slots is a cut of the query text, characters unchanged (only trimming, the
+    control-character validator and cutting off the quotes are applied): a helper or std method that rewrites the text
+    between the query and the AST (un-escaping, case folding, replacing) changes what every later stage sees."""
+    from rules import grammar_common as G
+    rep.rule(rid, "the text of %s in the AST is the query's own text, characters unchanged (trim / validator / cut only): no rewriting "
+             "helper between the grammar span and the AST slot" % ", ".join(labels))
+    try:
+        res = G.load(ctx)
+    except G.GrammarUnsupported as ex:
+        rep.unrecognised(rid, "slots", "-", "parser model unavailable: %s" % ex); return
+    for lab in labels:
+        info = res["slots"].get(lab)
+        if info is None:
+            rep.unrecognised(rid, "slot|%s" % lab, "src/parser.rs", "no construction of %s found in the AST builder" % lab); continue
+        tr = info.get("transforms") or []
+        if tr:
+            rep.unrecognised(rid, "slot|%s|%s" % (lab, ",".join(t[10:] for t in tr)), "src/parser.rs",
+                             "the text of %s is rewritten by `%s` between the query and the AST: %s" % (lab, ", ".join(t[10:] for t in tr), consequence))
+        else:
+            rep.ok(rid, "slot|%s" % lab, "src/parser.rs", "%d construction site(s), steps %s" % (info["sites"], info["steps"]))
